@@ -618,7 +618,7 @@ func (p *parser) parseEscape(opts CharsetOptions, standalone bool) charset {
 					p.error("invalid escape sequence", start, p.scanOffset)
 					return nil
 				}
-				r = r<<4 + d
+				r = appendHexDigit(r, d)
 				p.next()
 				if p.ch == '}' {
 					break
@@ -632,7 +632,7 @@ func (p *parser) parseEscape(opts CharsetOptions, standalone bool) charset {
 					p.error("invalid escape sequence", start, p.scanOffset)
 					return nil
 				}
-				r = r<<4 + d
+				r = appendHexDigit(r, d)
 				p.next()
 			}
 		}
@@ -669,6 +669,16 @@ func (p *parser) parseEscape(opts CharsetOptions, standalone bool) charset {
 	}
 	p.next()
 	return p.rune(r, opts)
+}
+
+// appendHexDigit appends one hexadecimal digit to r. Values that no longer fit into a valid
+// code point stay at unicode.MaxRune+1, so that long escapes cannot wrap around.
+func appendHexDigit(r, d rune) rune {
+	r = r<<4 + d
+	if r > unicode.MaxRune {
+		return unicode.MaxRune + 1
+	}
+	return r
 }
 
 func hexval(r rune) rune {
